@@ -288,13 +288,14 @@ class Model():
         right_field = getattr(association, right_field_name)
         found = False
         for field in [left_field, right_field]:
+            if asset in field and len(field) == 1:
+                # There are no other assets on this side,
+                # so we should remove the entire association.
+                self.remove_association(association)
+                return
+        for field in [left_field, right_field]:
             if asset in field:
                 found = True
-                if len(field) == 1:
-                    # There are no other assets on this side,
-                    # so we should remove the entire association.
-                    self.remove_association(association)
-                    return
                 field.remove(asset)
 
         if found and asset not in left_field and asset not in right_field:
